@@ -41,8 +41,9 @@ LEVEL_TEXT = ("Lean 4 theorems for ALL frames and ALL address/instance values: r
               "(eq_iff, gear_ne_device, inst_eq_iff); the regenerated registration order satisfies the hypothesis "
               "(order_ok, decide). Model tied exhaustively to dali/address.py on every run.")
 LEVEL_NOTE = ("Trusted: Lean kernel + 3 standard axioms; the hand model of address.py (exhaustively compared with the "
-              "code on the whole finite domain each run); the Spec partition tables are my transcription of the standard.")
-TECHNIQUE = "Lean 4 proof (bit-slice arithmetic + omega/grind, decide over 256 instance bytes) + exhaustive model-vs-code correspondence"
+              "code on the whole finite domain each run); the Spec partition tables are my transcription of the standard."
+              " dali/address.py is in addition re-translated from the source on every run (path tracing) and proved equal to the model for all 16-/24-bit frames and all integer arguments (Tie/Address.lean; fromFrame16_partition / fromFrame24_partition state the partition clause directly about the translated source).")
+TECHNIQUE = "Lean 4 proof (bit-slice arithmetic + omega/grind, decide over 256 instance bytes) + exhaustive model-vs-code correspondence + source translation tie (Tie/Address, Tie/Frame: dali/address.py re-translated on every run and proved equal to the model and to the standard's partition)"
 
 _STATE = {}
 
